@@ -591,7 +591,7 @@ def run(chk, only=None):
     import random
     hc.load_athlib()
     quick = chk.tier == 'quick'
-    rng = random.Random(18)
+    rng = random.Random(chk.seed)
     interp()
     jobs = build_jobs(quick, rng)
     if only:
